@@ -352,7 +352,8 @@ def run_property(prop, tier, seed):
                 continue
             if len(reported) >= 3:
                 continue
-            t2, _ = vlib.run_harness(binary, [scn], work, seed, nproc=1, tag="confirm")
+            group = [scn] if not scn.get("grp") else [s for s in scenarios if s.get("grp") == scn["grp"]]
+            t2, _ = vlib.run_harness(binary, group, work, seed, nproc=1, tag="confirm")
             v2, _, _ = vlib.validate_traces(work, t2, nproc=1)
             if any(prop in x["props"] for x in v2):
                 path = vlib.write_replay(prop, scn, seed, vlib.scenario_trace(t2[0], scn["id"]),
